@@ -32,7 +32,7 @@ CAL_CONFIGS = [
     (COSMO_BASE, 2),
 ]
 
-CASE_LINE_SAMPLE = 0.3
+CASE_LINE_SAMPLE = 0.25
 GEN_BFS = dict(MAXDEPTH=2, MAXWIDTH=2, MAXSIZE=4, MAXDIRS=0, MAXALIAS=0, MAXFRAGS=0, ORDERED=1)
 GEN_BFS_T = dict(MAXDEPTH=2, MAXWIDTH=2, MAXSIZE=4, MAXDIRS=1, MAXALIAS=0, MAXFRAGS=0, ORDERED=1)   # 53 291 cases (measured)
 GEN_BFS_F = dict(MAXDEPTH=2, MAXWIDTH=2, MAXSIZE=5, MAXDIRS=0, MAXALIAS=0, MAXFRAGS=1, ORDERED=1)   # 56 477 cases (measured)
@@ -297,6 +297,8 @@ def decide_and_validate(ctx, cases_by_id, results, entry_index, entries, quick, 
             flagged[(r["id"], r["u"])] = "panic"
             report(r, c, "panic", "panic while executing a valid operation: %s | %s" % (r["panic"][:300], q1), replay)
             continue
+        if r.get("engineErr") and ("deadline exceeded" in r["engineErr"] or "context canceled" in r["engineErr"]):
+            raise lib.Inconclusive("the driver's 20 s execution timeout fired (%s) — overloaded machine, not a verdict" % r["id"])
         if r.get("engineErr"):
             flagged[(r["id"], r["u"])] = "plan-error"
             report(r, c, "plan-error", "Execute failed for a valid operation on a composable layout: %s | query: %s | vars: %s" % (
@@ -331,7 +333,7 @@ def decide_and_validate(ctx, cases_by_id, results, entry_index, entries, quick, 
         c = cases_by_id[r["id"]]
         e = entry_index[r["entry"]]
         # client observations: all of them were compared with the expectation TLC generated; TLC re-judges the recorded
-        # line itself for every flagged one and for a seed-selected sample (30 %)
+        # line itself for every flagged one and for a seed-selected sample (25 %)
         if (r["id"], r["u"]) in flagged or rng.random() < CASE_LINE_SAMPLE:
             judged.add((r["id"], r["u"]))
             lines.append({"k": "c", "id": r["id"], "e": e, "u": r["u"] + 1, "sg": 0, "doc": c["doc"], "vars": c["vars"],
@@ -348,17 +350,18 @@ def decide_and_validate(ctx, cases_by_id, results, entry_index, entries, quick, 
                           "data": x["data"], "err": x["hasErr"]})
             meta.append(("x", r, x))
     ok_lines = [lines[i] for i in range(len(lines)) if meta[i][0] == "x" or (meta[i][1]["id"], meta[i][1]["u"]) not in flagged]
-    ctx.coverage["validator_self_test_corruptions_rejected"] = validator_self_test(ctx, ok_lines)
     nchunks = max(1, min(4 if quick else 8, len(lines) // 300))
     order = list(range(len(lines)))
     chunks = [order[i::nchunks] for i in range(nchunks)]
     bad_total = []
-    with concurrent.futures.ThreadPoolExecutor(max_workers=8) as ex:
+    with concurrent.futures.ThreadPoolExecutor(max_workers=9) as ex:
+        st = ex.submit(validator_self_test, ctx, ok_lines)
         futs = {ex.submit(validate_chunk, ctx, [lines[i] for i in ch], n): ch for n, ch in enumerate(chunks)}
         for fu in concurrent.futures.as_completed(futs):
             ch = futs[fu]
             for lineno, verdict in fu.result():
                 bad_total.append((ch[lineno - 1], verdict))
+        ctx.coverage["validator_self_test_corruptions_rejected"] = st.result()
     sim_mismatch = []
     tlc_flagged = set()
     for gi, verdict in bad_total:
@@ -442,8 +445,11 @@ def run(ctx):
     entries, catalog_path, pinned = load_catalog(ctx)
     entry_index = {e["name"]: i + 1 for i, e in enumerate(entries)}
     # ---- 2. model check the nondeterministic federated executor ----------------------------------
-    mc = ctx.tlc_must_pass("fed", "FedNondet", "MC_FedNondet.cfg", workers=8, timeout=1500, tag="mc-fednondet")
-    neg = ctx.tlc("fed", "FedNondet", "MC_FedNondet_neg.cfg", workers=4, timeout=600, count=False, tag="mc-fednondet-negative")
+    empty_ops = ctx.path("no-ops.ndjson")
+    lib.write_ndjson(empty_ops, [])
+    mc = ctx.tlc_must_pass("fed", "FedNondet", "MC_FedNondet.cfg", workers=8, timeout=1500, env={"C01_OPS": empty_ops}, tag="mc-fednondet")
+    neg = ctx.tlc("fed", "FedNondet", "MC_FedNondet_neg.cfg", workers=4, timeout=600, count=False, env={"C01_OPS": empty_ops},
+                  tag="mc-fednondet-negative")
     if neg.violated != "FedRefinesMonolith":
         raise lib.Inconclusive("sanity: with a universe whose keys are not unique the federated model must be able to diverge "
                                "from the monolith (non-vacuity of FedRefinesMonolith), got %r" % neg.error)
@@ -460,15 +466,32 @@ def run(ctx):
         nb, ns = len(bfs), len(sim)
         rng.shuffle(bfs)
         rng.shuffle(sim)
-        cap = 190 if quick else 5000
+        cap = 260 if quick else 5000
         bfs = bfs[:cap]
         sim = sim[:cap]
         stats[e["name"]] = {"bfs_generated": nb, "sim_generated": ns, "replayed": len(bfs) + len(sim)}
         cases += bfs + sim
     ctx.log("cases: %s" % json.dumps(stats))
     cases_by_id = {c["id"]: c for c in cases}
+    # ---- 2b. the nondeterministic model on a seed-selected sample of the GENERATED operations -------------------
+    pool = [c for c in cases if c["id"] not in {p["id"] for p in pinned}]
+    rng2 = random.Random(ctx.seed + 17)
+    rng2.shuffle(pool)
+    per, ops = {}, []
+    for c in pool:
+        if per.get(c["entry"], 0) < (8 if quick else 70):
+            per[c["entry"]] = per.get(c["entry"], 0) + 1
+            ops.append({"e": entry_index[c["entry"]], "doc": c["doc"], "vars": c["vars"]})
+    ops_path = ctx.path("fednondet-ops.ndjson")
+    lib.write_ndjson(ops_path, ops)
+    bg = concurrent.futures.ThreadPoolExecutor(max_workers=1)
+    mcf = bg.submit(ctx.tlc_must_pass, "fed", "FedNondet", "MC_FedNondet_file.cfg", workers=6, timeout=2400, env={"C01_OPS": ops_path},
+                    tag="mc-fednondet-generated-ops")
+    stats["fednondet_generated_ops"] = len(ops)
     # ---- 4. replay --------------------------------------------------------------------------------
     results = run_driver(ctx, binary, catalog_path, cases, "all")
+    mcf.result()   # model-level failure => INCONCLUSIVE (raised by tlc_must_pass)
+    bg.shutdown()
     # ---- 5./6. decide + validate ------------------------------------------------------------------
     nlines, nx, ncl = decide_and_validate(ctx, cases_by_id, results, entry_index, entries, quick, rng)
     distinct = {(r["id"], r["u"]) for r in results if nontrivial(r)}
